@@ -1439,6 +1439,21 @@ package bpmn
 
 // The remaining node goroutines: message loops that block in a select offering the cancellation alternative and take no
 // further turn once they have observed it (C07).
+// Delivery to a start or throw event is the catch event's: one message queued for the node's loop, which must not block
+// the deliverer (C11: delivering an event returns in bounded time whichever nodes have or have not been reached).
+//@ func (*startEvent).ConsumeEvent
+//@   prop C11
+//@   flag nonblocking
+//@   ensures [queued-once-for-the-node] evlen == old(evlen) + 1 && isSend(ev(old(evlen))) && evch(ev(old(evlen))) == evt.mch &&
+//@             is(evval(ev(old(evlen))), eventMessage) && evval(ev(old(evlen))).(eventMessage).event == ev
+//@   ensures result == event.Consumed && err == nil
+//@ func (*throwEvent).ConsumeEvent
+//@   prop C11
+//@   flag nonblocking
+//@   ensures [queued-once-for-the-node] evlen == old(evlen) + 1 && isSend(ev(old(evlen))) && evch(ev(old(evlen))) == evt.mch &&
+//@             is(evval(ev(old(evlen))), eventMessage) && evval(ev(old(evlen))).(eventMessage).event == ev
+//@   ensures result == event.Consumed && err == nil
+
 // The start event's step: a start message starts exactly one token; an event starts one only while the node has not
 // been passed yet and only when the satisfier says every condition is met; the first token passing gets all outgoing
 // flows, any later one is told that the node is complete.
